@@ -3,4 +3,5 @@ import LnnVerif.Model.Node
 import LnnVerif.Model.PropEngine
 import LnnVerif.Model.Fol
 import LnnVerif.Model.Store
+import LnnVerif.Model.Dual
 import LnnVerif.Props.All
